@@ -159,6 +159,7 @@ func runGatedTransformList(t *testing.T, c tlCase) (coq string, flags map[string
 		now := func() string { return coqZ(int64(time.Since(t0))) }
 		payloadN := 0
 		tbl := map[string]string{"": "t:"}
+		forged := map[string]bool{} // output ids another party created under the controller's name
 
 		get := func(typ, id string) resource.Resource {
 			r, err := st.Get(ctx, resource.NewMetadata("n1", typ, id, resource.VersionUndefined))
@@ -197,7 +198,9 @@ func runGatedTransformList(t *testing.T, c tlCase) (coq string, flags map[string
 
 				if kind == "GRemFin" {
 					// monitor (C07, any mapping): the release is issued only while the mapped output is gone
-					if o := get("O", tlMap[target]); o != nil && o.Metadata().Owner() == tcName {
+					// (an output created under the controller's name by another party is outside the theorem's hypothesis
+					// l_env_ok and not the controller's doing: such ids are left to the correspondence)
+					if o := get("O", tlMap[target]); o != nil && o.Metadata().Owner() == tcName && !forged[tlMap[target]] {
 						problem = fmt.Sprintf("finalizer-removed-before-output-destroyed: RemoveFinalizer(%s) is issued while output %s owned by the controller still exists (inputs a and b both map to g)", target, tlMap[target])
 					}
 
@@ -306,6 +309,10 @@ func runGatedTransformList(t *testing.T, c tlCase) (coq string, flags map[string
 
 					if st.Create(ctx, o, state.WithCreateOwner(ch.Owner)) == nil {
 						flags["foreign_output"] = true
+
+						if ch.Owner == tcName {
+							forged[ch.ID] = true
+						}
 					}
 
 					continue
